@@ -305,5 +305,9 @@ func init() {
 		arithmeticFoundations(c)
 		groupFoundations(c, true)
 		readFullRule(c)
+		// "always verifiable": every verifier sibling and the short-vector reduction behind the
+		// verification equation
+		verifierSiblingRules(c)
+		latticeRules(c)
 	}
 }
